@@ -24,11 +24,18 @@ def pairsF : List Float → List (Float × Float)
 
 def verdict (b : Bool) : String := if b then "ok" else "violated"
 
+/-- the regenerated `sky2ang` (both columns) -/
+def sky2angGen (ra dec : Float) : Float × Float := (Gen.C09.sky2angCol0 ra dec, Gen.C09.sky2angCol1 ra dec)
+
 def handle (ws : List String) : String :=
   match ws with
   | ["s2v", ra, dec] =>
     match parseFloat? ra, parseFloat? dec with
     | some ra, some dec => showVec (sky2vec Gen.C09.sky2angTheta ra dec)
+    | _, _ => "bad-op"
+  | ["s2a", ra, dec] =>
+    match parseFloat? ra, parseFloat? dec with
+    | some ra, some dec => let tp := sky2angGen ra dec; s!"{showFloat tp.1} {showFloat tp.2}"
     | _, _ => "bad-op"
   | ["v2s", deg, x, y, z] =>
     match parseBool? deg, parseFloat? x, parseFloat? y, parseFloat? z with
@@ -39,21 +46,23 @@ def handle (ws : List String) : String :=
   | ["circ", m, depth, ra, dec, r] =>
     match m.toNat?, parseDepth? depth, parseFloat? ra, parseFloat? dec, parseFloat? r with
     | some m, some depth, some ra, some dec, some r =>
-      let c := addCircleCall Gen.C09.sky2angTheta Gen.C09.discFact m depth ra dec r
+      let c := addCircleCallOf sky2angGen Gen.C09.discFact Gen.C09.discNside Gen.C09.discInsertDepth
+        Gen.C09.discInclusive Gen.C09.discNest m depth ra dec r
       s!"{c.depth} {c.nside} {showVec c.vec} {showFloat c.radius} {showB c.inclusive} {showB c.nest} {c.fact}"
     | _, _, _, _, _ => "bad-op"
   | "poly" :: m :: depth :: rest =>
     match m.toNat?, parseDepth? depth, rest.mapM parseFloat? with
     | some m, some depth, some l =>
       if l.length % 2 ≠ 0 then "bad-op" else
-      match addPolyCall Gen.C09.sky2angTheta Gen.C09.polyFact m depth (pairsF l) with
+      match addPolyCallOf sky2angGen Gen.C09.polyFact Gen.C09.polyNside Gen.C09.polyInsertDepth
+          Gen.C09.polyInclusive Gen.C09.polyNest m depth (pairsF l) with
       | none => "err assertion"
       | some c => s!"{c.depth} {c.nside} {showB c.inclusive} {showB c.nest} {c.fact} " ++ " ".intercalate (c.verts.map showVec)
     | _, _, _ => "bad-op"
   | ["within", m, degin, ra, dec] =>
     match m.toNat?, parseBool? degin, parseFloat? ra, parseFloat? dec with
     | some m, some degin, some ra, some dec =>
-      match skyWithinCall Gen.C09.skyWithinScale Gen.C09.sky2angTheta finiteF m degin ra dec with
+      match skyWithinCallOf Gen.C09.skyWithinScale sky2angGen finiteF Gen.C09.withinNside Gen.C09.withinNest m degin ra dec with
       | none => "masked"
       | some c => s!"{c.nside} {showFloat c.theta} {showFloat c.phi} {showB c.nest}"
     | _, _, _, _ => "bad-op"
